@@ -283,8 +283,8 @@ class DataclassValidator(_ToTupleValidator[_DCT]):
         return (
             type(self) == type(other)
             and self.data_cls is other.data_cls
-            and other.validate_object is self.validate_object
-            and other.validate_object_async is self.validate_object_async
+            and other.validate_object == self.validate_object
+            and other.validate_object_async == self.validate_object_async
             and other.schema == self.schema
             and other.fail_on_unknown_keys == self.fail_on_unknown_keys
             and other.coerce == self.coerce
